@@ -122,6 +122,7 @@ type Task struct {
 	Err      error
 	Rec      *Recorder
 	Result   interface{}
+	CustomID string // id a scripted delegate gave the activity (custom actors)
 	Panic    interface{}
 	PanicStk string
 	StartSeq int
